@@ -1,9 +1,11 @@
 #!/bin/sh
 # Regression over every seeded change: applies each patch to /repo's working tree, runs the property's quick check, restores the tree.
 # Prints one line per seed: caught / MISSED / does-not-apply. Do not touch /repo or run checks while this runs.
+# IDS="C02 C14" restricts the run to the seeds of those properties; DIRS="seeded6 seeded7" to those rounds.
 cd /verif
-for d in seeded seeded2 seeded3 seeded4 seeded5 seeded6; do for i in 01 02 03 04 05 06 07 08 09 10 11 12 13 14 15 16 17 18 19 20; do
+for d in ${DIRS:-seeded seeded2 seeded3 seeded4 seeded5 seeded6 seeded7}; do for i in 01 02 03 04 05 06 07 08 09 10 11 12 13 14 15 16 17 18 19 20; do
   id=C$i; [ -f $d/$id/patch.diff ] || continue
+  [ -z "${IDS:-}" ] || echo " $IDS " | grep -q " $id " || continue
   chk=$id; [ "$d/$id" = "seeded5/C03" ] && chk=C02
   out=$(sh scripts/try_seed.sh $chk $d/$id 2>&1)
   if echo "$out" | grep -q "does not apply"; then r="does-not-apply"; elif echo "$out" | grep -q "VIOLATION"; then r=caught; else r=MISSED; fi
